@@ -438,3 +438,11 @@ class noise:
         from prysm import mathops
         mathops.np._srcmodule = self._old
         return False
+
+
+class no_div_safety:
+    def __enter__(self):
+        return self
+
+    def __exit__(self, *a):
+        return False
